@@ -5,9 +5,9 @@ unset GOSUMDB GOTOOLCHAIN; export GOFLAGS=-mod=mod GOPROXY=off
 git -C /repo worktree remove --force $WT 2>/dev/null
 git -C /repo worktree add -q --detach $WT HEAD || exit 2
 git -C $WT apply $SRC/patch.diff || { echo "PATCH DOES NOT APPLY"; git -C /repo worktree remove --force $WT; exit 2; }
-sh $SRC/demo/${DEMO:-demo.sh} $WT >/dev/null 2>&1; W=$?
+${SHELL_BIN:-sh} $SRC/demo/${DEMO:-demo.sh} $WT >/dev/null 2>&1; W=$?
 git -C $WT apply -R $SRC/patch.diff
-sh $SRC/demo/${DEMO:-demo.sh} $WT >/dev/null 2>&1; WO=$?
+${SHELL_BIN:-sh} $SRC/demo/${DEMO:-demo.sh} $WT >/dev/null 2>&1; WO=$?
 echo "$PID-$N: demo with change rc=$W (want 1), without rc=$WO (want 0)"
 git -C /repo worktree remove --force $WT
 [ $W = 1 ] && [ $WO = 0 ]
